@@ -17,7 +17,7 @@ import (
 var c09Vals = []uint64{0, 1, 127, 128, 300, 1 << 31, 1<<32 - 1, 1 << 32, 1 << 63, ^uint64(0)}
 var c09Modes = []uint32{0, 1, 0o644, 0o755, 0o600, 0o1777, 0o4755, 0o2755, 0o7777, 0o100644, 0o40755, 1 << 31, 1<<32 - 1}
 var c09Secs = []int64{0, 1, -1, 1700000000, -62135596800, 1 << 40, -(1 << 62), 1<<63 - 1, -1 << 63}
-var c09Nanos = []uint32{0, 1, 999999999, 123456789}
+var c09Nanos = []uint32{0, 1, 999999999, 123456789, 1 << 31, 1<<32 - 1, 1000000000}
 
 func defaultPerm(t uint64) (int, bool) {
 	switch t {
@@ -59,7 +59,7 @@ func compareDecoded(d data.UnixFSData, m *pb.Data) string {
 	if d.FieldFanout().Exists() != (m.Fanout != nil) || (m.Fanout != nil && uint64(d.FieldFanout().Must().Int()) != *m.Fanout) {
 		return "fanout differs"
 	}
-	if d.FieldMode().Exists() != (m.Mode != nil) || (m.Mode != nil && uint64(d.FieldMode().Must().Int()) != uint64(*m.Mode)) {
+	if d.FieldMode().Exists() != (m.Mode != nil) || (m.Mode != nil && d.FieldMode().Must().Int() != int64(*m.Mode)) {
 		return fmt.Sprintf("mode differs (present %v vs %v)", d.FieldMode().Exists(), m.Mode != nil)
 	}
 	if d.FieldMtime().Exists() != (m.Mtime != nil) {
@@ -70,7 +70,7 @@ func compareDecoded(d data.UnixFSData, m *pb.Data) string {
 		if t.FieldSeconds().Int() != m.Mtime.GetSeconds() {
 			return fmt.Sprintf("mtime seconds %d vs %d", t.FieldSeconds().Int(), m.Mtime.GetSeconds())
 		}
-		if t.FieldFractionalNanoseconds().Exists() != (m.Mtime.Nanos != nil) || (m.Mtime.Nanos != nil && uint32(t.FieldFractionalNanoseconds().Must().Int()) != *m.Mtime.Nanos) {
+		if t.FieldFractionalNanoseconds().Exists() != (m.Mtime.Nanos != nil) || (m.Mtime.Nanos != nil && t.FieldFractionalNanoseconds().Must().Int() != int64(*m.Mtime.Nanos)) {
 			return "mtime nanos differ"
 		}
 	}
@@ -375,7 +375,7 @@ func TestC09(t *testing.T) {
 						c.Violation("C09|time-rejected", "timestamp %x rejected: %v", raw, err)
 						continue
 					}
-					if d.FieldSeconds().Int() != g.GetSeconds() || d.FieldFractionalNanoseconds().Exists() != (g.Nanos != nil) || (g.Nanos != nil && uint32(d.FieldFractionalNanoseconds().Must().Int()) != *g.Nanos) {
+					if d.FieldSeconds().Int() != g.GetSeconds() || d.FieldFractionalNanoseconds().Exists() != (g.Nanos != nil) || (g.Nanos != nil && d.FieldFractionalNanoseconds().Must().Int() != int64(*g.Nanos)) {
 						c.Violation("C09|time-differs", "timestamp %x: library (%d, nanos present %v) vs reference (%d, %v)", raw, d.FieldSeconds().Int(), d.FieldFractionalNanoseconds().Exists(), g.GetSeconds(), g.Nanos)
 					}
 					enc := data.AppendEncodeUnixTime(nil, d)
